@@ -224,6 +224,52 @@ pub fn compile_with(files: &Files, main: &str, opts: &CompileOpts) -> Outcome {
     }
 }
 
+/// lexical normalisation of a path against a virtual working directory
+pub fn normalise_path(p: &str, cwd: &str) -> String {
+    let joined = if p.starts_with('/') { p.to_string() } else { format!("{}/{}", cwd.trim_end_matches('/'), p) };
+    let mut parts: Vec<&str> = Vec::new();
+    for c in joined.split('/') {
+        match c {
+            "" | "." => {}
+            ".." => {
+                parts.pop();
+            }
+            x => parts.push(x),
+        }
+    }
+    format!("/{}", parts.join("/"))
+}
+
+/// Compile with the main file named the way a user would type it (`main.sy`, `./main.sy`, `p/main.sy`) from a virtual
+/// working directory; `files` is keyed by absolute path. Returns the outcome and the log of the paths the compiler
+/// asked for (as spelled and normalised).
+pub fn compile_spelled(files: &Files, main_spelled: &str, cwd: &str, no_std: bool) -> (Outcome, Vec<(String, String)>) {
+    let mut args = sylt::Args::default();
+    args.args = vec![main_spelled.to_string()];
+    args.no_std = no_std;
+    let log: std::cell::RefCell<Vec<(String, String)>> = std::cell::RefCell::new(Vec::new());
+    let reader = |p: &Path| -> Result<String, Error> {
+        let spelled = p.display().to_string();
+        let key = normalise_path(&spelled, cwd);
+        log.borrow_mut().push((spelled, key.clone()));
+        match files.get(&key) {
+            Some(s) => Ok(s.clone()),
+            None => Err(Error::FileNotFound(PathBuf::from(p))),
+        }
+    };
+    let mut out: Vec<u8> = Vec::new();
+    let res = catch_unwind(AssertUnwindSafe(|| sylt::compile_with_reader_to_writer(&args, reader, &mut out)));
+    let o = match res {
+        Ok(Ok(())) => Outcome::Ok(out),
+        Ok(Err(errs)) => Outcome::Err { errs: errs.iter().map(|e| summarise(e, false)).collect(), bytes_written: out.len() },
+        Err(p) => {
+            let loc = LAST_PANIC_LOC.with(|c| c.borrow().clone());
+            Outcome::Panic { msg: format!("{} @ {}", panic_text(&p), loc), bytes_written: out.len() }
+        }
+    };
+    (o, log.into_inner())
+}
+
 pub fn compile(files: &Files, main: &str, no_std: bool) -> Outcome {
     compile_with(files, main, &CompileOpts { no_std, require: None, render: false })
 }
